@@ -375,7 +375,16 @@ def r5(ctx, tog):
         ctx.ok(R, 'try_from reaches Board.hash only through %s' % tog, where(s.body))
 
 
+def r6(ctx):
+    """R6 OUT-OVERWRITE (= C02.R2): the board written by the in-place make_move does not depend on what the output buffer
+    held before (it starts from a whole copy of the source, hash included) -- otherwise the hash depends on call order."""
+    from . import c02
+    sub = Sub(ctx, {'C02.R2': 'C08.R6'})
+    c02.r12(sub)
+
+
 def run(ctx):
+    r6(ctx)
     tog = r1(ctx)
     if tog:
         r2(ctx, tog)
